@@ -133,10 +133,13 @@ func (w *worker) atHook(pname, key string) {
 }
 
 func (w *worker) main() {
-	w.gid = goid()
-	registry.Store(w.gid, w)
+	w.gid = goid() // only used to find this goroutine in dumps
+	gk := gkey()
+	if prev, loaded := registry.LoadOrStore(gk, w); loaded && prev != w {
+		panic("harness: goroutine key already registered")
+	}
 	defer func() {
-		registry.Delete(w.gid)
+		registry.Delete(gk)
 		if r := recover(); r != nil {
 			w.ex.events <- event{w: w, kind: evPanic, msg: fmt.Sprint(r), stack: string(debug.Stack()), results: w.pending, round: w.cur, hooks: w.hooks}
 			return
@@ -272,6 +275,7 @@ type Exec struct {
 
 	res      Result
 	finished int
+	timer    *time.Timer
 }
 
 // Options of an execution.
@@ -416,14 +420,47 @@ func (ex *Exec) recv(d time.Duration) (event, bool) {
 		return ev, true
 	default:
 	}
-	t := time.NewTimer(d)
-	defer t.Stop()
-	select {
-	case ev := <-ex.events:
-		return ev, true
-	case <-t.C:
+	if d <= 0 {
 		return event{}, false
 	}
+	if ex.timer == nil {
+		ex.timer = time.NewTimer(d)
+	} else {
+		ex.timer.Reset(d) // Go 1.23 timer semantics: no stale value can be delivered after Reset
+	}
+	select {
+	case ev := <-ex.events:
+		ex.timer.Stop()
+		return ev, true
+	case <-ex.timer.C:
+		return event{}, false
+	}
+}
+
+// recvOrBlocked waits for the next event. When the watchdog expires it takes a goroutine dump and gives up only if
+// every worker in who is really blocked (select, chan send/receive, mutex, ...): a goroutine that is merely runnable or
+// running on an overloaded machine gets more time (up to 12 further watchdog periods). The verdict "blocked" is thus
+// a statement about a quiescent system, not about timing.
+func (ex *Exec) recvOrBlocked(d time.Duration, who func() []*worker) (event, bool, string) {
+	dump := ""
+	for round := 0; round < 13; round++ {
+		ev, ok := ex.recv(d)
+		if ok {
+			return ev, true, ""
+		}
+		dump = Dump()
+		allBlocked := true
+		for _, w := range who() {
+			st := goroutineState(dump, w.gid)
+			if strings.HasPrefix(st, "runnable") || strings.HasPrefix(st, "running") || strings.HasPrefix(st, "syscall") {
+				allBlocked = false
+			}
+		}
+		if allBlocked {
+			break
+		}
+	}
+	return event{}, false, dump
 }
 
 func (ex *Exec) keyOf(w *worker) (string, int) {
@@ -489,7 +526,8 @@ func (ex *Exec) nodeKey() string {
 			sb.WriteByte(' ')
 		}
 		st := &w.st
-		fmt.Fprintf(&sb, "%d%s", st.round, pointCodes[st.pt])
+		sb.WriteByte(byte('0' + st.round))
+		sb.WriteString(pointCodes[st.pt])
 		switch st.pt {
 		case ptLockEnter, ptLockAfterRef, ptLockBeforeSelect:
 			if st.cancelled[st.round] {
@@ -608,14 +646,14 @@ func (ex *Exec) do(a Action) (outcome string, nondet bool) {
 // awaitFrom waits for the next event of w (which was just granted a step or woken by a cancel).
 func (ex *Exec) awaitFrom(w *worker, why string) string {
 	for {
-		ev, ok := ex.recv(ex.watchdog)
+		ev, ok, dump := ex.recvOrBlocked(ex.watchdog, func() []*worker { return []*worker{w} })
 		if !ok {
 			kname, k := ex.keyOf(w)
 			extra := ""
 			if k >= 0 {
 				extra = fmt.Sprintf("; shadow: key %s holder=%d", kname, ex.holder[k])
 			}
-			ex.fail(fmt.Sprintf("w%d (%s) did not reach its next hook point within %v although nothing it depends on is held: blocked%s", w.id, why, ex.watchdog, extra), true)
+			ex.failDump(fmt.Sprintf("w%d (%s) did not reach its next hook point within %v although nothing it depends on is held: its goroutine is blocked [%s]%s", w.id, why, ex.watchdog, goroutineState(dump, w.gid), extra), dump)
 			return "blocked"
 		}
 		if ev.w == w {
@@ -638,20 +676,27 @@ func (ex *Exec) awaitRelease(h *worker, k int) (string, bool) {
 		ex.res.Stats.WakeChoices++
 	}
 	var hev, wev *event
-	deadline := time.Now().Add(ex.watchdog)
 	for hev == nil || wev == nil {
-		ev, ok := ex.recv(time.Until(deadline))
+		ev, ok, dump := ex.recvOrBlocked(ex.watchdog, func() []*worker {
+			if hev == nil {
+				return []*worker{h}
+			}
+			var ws []*worker
+			for _, id := range waiters {
+				ws = append(ws, ex.workers[id])
+			}
+			return ws
+		})
 		if !ok {
 			if hev != nil {
 				ex.onArrive(*hev)
 			}
 			kname := ex.prog.Keys[k]
 			if hev == nil {
-				ex.fail(fmt.Sprintf("w%d granted the releasing step of Unlock(%s) did not reach unlock.afterRelease within %v", h.id, kname, ex.watchdog), true)
+				ex.failDump(fmt.Sprintf("w%d granted the releasing step of Unlock(%s) did not reach unlock.afterRelease within %v: its goroutine is blocked [%s]", h.id, kname, ex.watchdog, goroutineState(dump, h.gid)), dump)
 				return "blocked", nondet
 			}
 			exists, full := ex.m.VerifSlotFull(kname)
-			dump := Dump()
 			states := ""
 			for _, id := range waiters {
 				states += fmt.Sprintf(" w%d=[%s]", id, goroutineState(dump, ex.workers[id].gid))
